@@ -16,7 +16,7 @@ import typing
 from collections import OrderedDict
 from os.path import join as pjoin
 
-from snakeoil.bash import read_bash_dict
+from snakeoil.bash import BashParseError, read_bash_dict
 from snakeoil.compatibility import IGNORED_EXCEPTIONS
 from snakeoil.mappings import DictMixin, ImmutableDict
 from snakeoil.osutils import listdir_files
@@ -308,6 +308,8 @@ class PortageConfig(DictMixin):
                         f"parsing {fp!r}", exception=e
                     ) from e
                 return
+            except BashParseError as e:
+                raise config_errors.ParsingError(f"parsing {fp!r}", exception=e) from e
 
             if incrementals:
                 for key in profiles.INCREMENTALS:
